@@ -101,6 +101,7 @@ type Proc struct {
 	Instances  *instances.Repository
 	Probes     *probes.Repository
 	Repos      Repos // what the use cases see (possibly wrapped)
+	Settings   settings.Settings
 	UC         container.Container
 	Dispatcher *reporter.Dispatcher
 	Browser    browser.Handler
@@ -173,16 +174,19 @@ func (w *World) NewProcOpts(po ProcOpts) *Proc {
 		rp = po.Wrap(rp)
 	}
 	p.Repos = rp
+	// use-case options exactly as the application derives them from its settings (cmd/swat4master/container)
+	p.Settings = settings.Settings{ServerLiveness: w.Opts.Liveness, DiscoveryRevivalRetries: w.Opts.RevivalRetries, DiscoveryRefreshRetries: w.Opts.RefreshRetries}
+	ucc := container.NewUseCaseConfigs(p.Settings)
 	p.UC = container.NewContainer(
-		addserver.New(rp.Servers, rp.Probes, addserver.UseCaseOptions{MaxProbeRetries: w.Opts.RevivalRetries}, p.Metrics, p.Logger),
+		addserver.New(rp.Servers, rp.Probes, ucc.AddServerOptions, p.Metrics, p.Logger),
 		getserver.New(rp.Servers),
 		listservers.New(rp.Servers, w.Clock),
 		probeserver.New(rp.Servers, rp.Probes, p.Metrics, w.Clock, p.Logger),
-		refreshservers.New(rp.Servers, rp.Probes, refreshservers.UseCaseOptions{MaxProbeRetries: w.Opts.RefreshRetries}, p.Metrics, p.Logger),
+		refreshservers.New(rp.Servers, rp.Probes, ucc.RefreshServersOptions, p.Metrics, p.Logger),
 		removeserver.New(rp.Servers, rp.Instances, p.Logger),
 		renewserver.New(rp.Instances, rp.Servers, w.Clock),
-		reportserver.New(rp.Servers, rp.Instances, rp.Probes, reportserver.UseCaseOptions{MaxProbeRetries: w.Opts.RevivalRetries}, p.Validate, p.Metrics, w.Clock, p.Logger),
-		reviveservers.New(rp.Servers, rp.Probes, reviveservers.UseCaseOptions{MaxProbeRetries: w.Opts.RevivalRetries}, p.Metrics, p.Logger),
+		reportserver.New(rp.Servers, rp.Instances, rp.Probes, ucc.ReportServerOptions, p.Validate, p.Metrics, w.Clock, p.Logger),
+		reviveservers.New(rp.Servers, rp.Probes, ucc.ReviveServersOptions, p.Metrics, p.Logger),
 	)
 	p.Dispatcher = reporter.NewDispatcher(p.Metrics, w.Clock, p.Logger)
 	must2(available.New(p.Dispatcher))
@@ -190,7 +194,7 @@ func (w *World) NewProcOpts(po ProcOpts) *Proc {
 	must2(heartbeat.New(p.Dispatcher, p.Metrics, p.UC.ReportServer, p.UC.RemoveServer))
 	must2(keepalive.New(p.Dispatcher, p.UC.RenewServer))
 	p.Browser = browser.NewHandler(p.Metrics, p.Logger, w.Clock, p.UC.ListServers, browser.HandlerOpts{Liveness: w.Opts.Liveness})
-	p.API = api.New(settings.Settings{ServerLiveness: w.Opts.Liveness, DiscoveryRevivalRetries: w.Opts.RevivalRetries, DiscoveryRefreshRetries: w.Opts.RefreshRetries}, p.Logger, p.UC)
+	p.API = api.New(p.Settings, p.Logger, p.UC)
 	p.Router = rest.NewRouter(p.API)
 	w.Procs = append(w.Procs, p)
 	return p
